@@ -345,7 +345,7 @@ Theorem decoders_total :
   (forall v, total (label_from_value v)) /\
   (forall t v, total (reg_from_value t v)) /\
   (forall reg v, total (regp_from_value reg v)).
-Proof. repeat split;
+Proof. repeat (match goal with |- and _ _ => split end); intros;
   auto using Header_from_value_total, ProtectedHeader_from_value_total, ProtectedHeader_from_cbor_bstr_total,
     CoseSignature_from_value_total, CoseSign1_from_value_total, CoseSign_from_value_total, CoseMac_from_value_total,
     CoseMac0_from_value_total, CoseEncrypt_from_value_total, CoseEncrypt0_from_value_total,
